@@ -943,7 +943,7 @@ int32_t pstm_sub_s(const pstm_int *a, const pstm_int *b, pstm_int *c)
     {
         t = ((pstm_word) a->dp[x]) - t;
         c->dp[x] = (pstm_digit) t;
-        t = (t >> DIGIT_BIT);
+        t = (t >> DIGIT_BIT) & 1;
     }
     for (; x < oldused; x++)
     {
